@@ -494,6 +494,12 @@ func recoverEngine(logger log.Logger, expr parser.Expr, errp *error) {
 
 		level.Error(logger).Log("msg", "runtime panic in engine", "expr", expr.String(), "err", e, "stacktrace", string(buf))
 		*errp = errors.Wrap(err, "unexpected error")
+	case error:
+		*errp = errors.Wrap(err, "unexpected error")
+	default:
+		// The panic has been recovered: without an error the partial result
+		// would be returned as a success.
+		*errp = errors.Newf("unexpected error: %v", e)
 	}
 }
 
